@@ -21,6 +21,7 @@ PROP = {  # subject keyword -> (property, failing input)
  'akima end-slope extrapolation on four-point grids': ('C15', '1D-akima on grid [-4,-2,0,2], x=-1 -> UnboundLocalError m5; general akima silently used m5=0'),
  'BalanceComp constructor forwards rhs_kwargs': ('C26', "BalanceComp('y', rhs_kwargs={'val':3.0}, normalize=False), lhs=1 -> residual 1.0 instead of -2.0"),
  'dot and cross products of an input with itself': ('C26', "DotProductComp(a_name='a', b_name='a'): declared partial a instead of 2a; CrossProductComp likewise non-zero for a x a"),
+ 'array ref/ref0 of a source are gathered with the flat positions': ('C04', 'y shape (4,2), ref=5, array ref0, connect(src_indices=[3]) (non-flat): input [[10.5, 8.]] instead of [[7., 8.]] after every transfer'),
  'mixed scalar/array ref and ref0 on a source': ('C08', "array ref0 + scalar ref on a source read through src_indices -> 'could not broadcast' at setup"),
  'explicit components copy linear vectors in physical units': ('C08', "ExecComp('y = 5*a', y={'ref0': -2}) under LinearRunOnce: dy/da = 15 (fwd) / 1.667 (rev) instead of 5"),
  'matrix-free explicit components see physical d_outputs': ('C08', 'compute_jacvec_product component with ref on its output: 20 instead of 5 under DirectSolver / ScipyKrylov'),
